@@ -35,10 +35,10 @@ theorem angvec2r_cases (th : R) (v : Vec 3 R) (M : Mat 3 3 R) (h : Gen.angvec2r 
     M = one3 ∨ (0 < nrm3 P v ∧ M = rodM (fun i => v i / nrm3 P v) (P.cos th) (P.sin th)) := by
   unfold Gen.angvec2r at h
   simp only [] at h
-  split_ifs at h with h1 h2
+  split_ifs at h with h1
   · left; injection h with h; rw [← h]; apply Mat.ext33' <;> simp [one3]
   · right
-    have hn : 0 < nrm3 P v := lt_trans (by norm_num) h2
+    have hn : 0 < nrm3 P v := lt_of_lt_of_le (by norm_num) (not_lt.mp h1)
     refine ⟨hn, ?_⟩
     injection h with h; rw [← h]
     apply Mat.ext33' <;> simp [rodM, mmul, skew3, one3, nrm3, Fin.sum_univ_three] <;> ring
@@ -48,10 +48,10 @@ theorem angvec2r_deg_cases (th : R) (v : Vec 3 R) (M : Mat 3 3 R) (h : Gen.angve
       M = rodM (fun i => v i / nrm3 P v) (P.cos (th * P.pi / 180)) (P.sin (th * P.pi / 180))) := by
   unfold Gen.angvec2r_deg at h
   simp only [] at h
-  split_ifs at h with h1 h2
+  split_ifs at h with h1
   · left; injection h with h; rw [← h]; apply Mat.ext33' <;> simp [one3]
   · right
-    have hn : 0 < nrm3 P v := lt_trans (by norm_num) h2
+    have hn : 0 < nrm3 P v := lt_of_lt_of_le (by norm_num) (not_lt.mp h1)
     refine ⟨hn, ?_⟩
     injection h with h; rw [← h]
     apply Mat.ext33' <;> simp [rodM, mmul, skew3, one3, nrm3, Fin.sum_univ_three] <;> ring
